@@ -108,6 +108,11 @@ def kvStep (st : KvState) (args : List String) : KvState × String :=
   | ["get", n, k] =>
     (st, match Kv.get (h n).tree k with | some e => s!"{e.mod}:{showOpt e.val}" | none => "none")
   | ["istomb", n, k] => (st, toString (Kv.isTombstoned (h n).tree k))
+  | ["trace", n, k] =>
+    -- versions are the handles named `ver:<label>`; an entry's `prev` holds the label
+    let store (l : String) : Option (Kv.Tree String String) := (lookup ("ver:" ++ l) st).map (·.tree)
+    let tr := Kv.trace store 0 k (st.length + 2) (h n).tree none
+    (st, " ".intercalate (tr.map fun (t, v) => s!"{t}:{showOpt v}"))
   | ["diff", n, g] =>
     let ds := sortByKey ((Kv.diff (h n).tree (h g).tree).map fun (k, a, b) => (k, showOpt a ++ ":" ++ showOpt b))
     (st, " ".intercalate (ds.map fun p => p.1 ++ "=" ++ p.2))
